@@ -175,7 +175,10 @@ func (c *Catalog) Tree(t *rapid.T, app uint32, o TreeOpts) []*AVP {
 	if o.MaxDepth == 0 {
 		o.MaxDepth = 4
 	}
-	n := rapid.IntRange(0, o.MaxTop).Draw(t, "n-avps")
+	n := rapid.IntRange(1, o.MaxTop).Draw(t, "n-avps")
+	if rapid.IntRange(0, 24).Draw(t, "no-avps") == 0 {
+		n = 0
+	}
 	out := make([]*AVP, 0, n)
 	for i := 0; i < n; i++ {
 		out = append(out, c.avp(t, app, o, 1))
@@ -187,8 +190,26 @@ func (c *Catalog) avp(t *rapid.T, app uint32, o TreeOpts, depth int) *AVP {
 	a := &AVP{}
 	a.Flags = rapid.Byte().Draw(t, "avp-flags") &^ 0x80
 	var vbit bool
-	switch k := rapid.IntRange(0, 19).Draw(t, "avp-kind"); {
-	case k < 13 && len(c.reachable(app).types) > 0: // a defined AVP, type chosen first so that rare types are reached
+	k := rapid.IntRange(0, 19).Draw(t, "avp-kind")
+	if k >= 11 && k < 15 {
+		// a grouped AVP, so that nesting is common
+		if es := c.reachable(app).byType[TGrouped]; len(es) > 0 && depth < o.MaxDepth && len(o.OnlyTypes) == 0 {
+			e := es[rapid.IntRange(0, len(es)-1).Draw(t, "group-entry")]
+			a.Code, a.Vendor = e.Code, e.Vendor
+			if e.Vendor != 0 {
+				a.Flags |= 0x80
+			}
+			a.V = Val{T: TGrouped}
+			n := rapid.IntRange(0, 4).Draw(t, "n-children")
+			for i := 0; i < n; i++ {
+				a.Children = append(a.Children, c.avp(t, app, o, depth+1))
+			}
+			return a
+		}
+		k = 0
+	}
+	switch {
+	case k < 11 && len(c.reachable(app).types) > 0: // a defined AVP, type chosen first so that rare types are reached
 		ri := c.reachable(app)
 		types := ri.types
 		if len(o.OnlyTypes) > 0 {
@@ -202,7 +223,7 @@ func (c *Catalog) avp(t *rapid.T, app uint32, o TreeOpts, depth int) *AVP {
 		e := es[rapid.IntRange(0, len(es)-1).Draw(t, "entry")]
 		a.Code, a.Vendor = e.Code, e.Vendor
 		vbit = e.Vendor != 0
-	case k < 15 && len(c.Entries) > 0: // a defined code with another / no / zero vendor
+	case k < 17 && len(c.Entries) > 0: // a defined code with another / no / zero vendor
 		e := c.Entries[rapid.IntRange(0, len(c.Entries)-1).Draw(t, "entry")]
 		a.Code = e.Code
 		switch rapid.IntRange(0, 3).Draw(t, "vendor-twist") {
